@@ -2,6 +2,7 @@ package main
 
 import (
 	"fmt"
+	"reflect"
 	"sort"
 	"sync"
 	"sync/atomic"
@@ -16,6 +17,7 @@ import (
 	"verif/mc/par"
 	"verif/mc/ref"
 	"verif/mc/report"
+	"verif/mc/vmstep"
 )
 
 // C06: the memory budget bounds what a run can allocate. Every expression of the
@@ -187,6 +189,94 @@ func c06(r *report.Run) {
 		r.Report(report.Violation{Sub: f.mode.String(), Kind: f.kind, Witness: w.String(), Order: int64(f.idx),
 			Detail: map[string]interface{}{"source": e.String(), "minimal_source": w.String(), "budget": f.budget, "env": f.val.Describe(),
 				"reference_allocation_count": f.need}})
+	}
+	// Per-instruction invariant under the stepping seam (default budget): the allocation counter never
+	// decreases, and across OpRange/OpArray/OpMap it grows by exactly the length of the collection left
+	// on top of the stack; no other instruction changes it.
+	vm.MemoryBudget = saved
+	var stepRuns, stepSteps int64
+	stepSkipped := ""
+	if !vmstep.Available() {
+		stepSkipped = "debug stepping seam not found"
+	} else {
+		limit := len(cases)
+		if r.Tier == "quick" && limit > 4000 {
+			limit = 4000
+		}
+		par.ForW(limit, func(w, i int) {
+			c := cases[i]
+			guard.Enter(w, "step "+c.e.String())
+			defer guard.Leave(w)
+			for mi, m := range sl.modes {
+				p := c.progs[mi]
+				if p == nil {
+					continue
+				}
+				for _, v := range c.vals {
+					st, err := vmstep.Start(p, m.RunEnv(henv.Make(v), c.names))
+					if err != nil {
+						return
+					}
+					atomic.AddInt64(&stepRuns, 1)
+					mem, ok := st.Int("memory")
+					if !ok {
+						st.Finish()
+						mu.Lock()
+						stepSkipped = "VM has no int field named memory"
+						mu.Unlock()
+						return
+					}
+					ip := 0
+					for {
+						op := byte(255)
+						if ip < len(p.Bytecode) {
+							op = p.Bytecode[ip]
+						}
+						if !st.Step() {
+							break
+						}
+						atomic.AddInt64(&stepSteps, 1)
+						if st.IP >= len(p.Bytecode) {
+							break // the VM is finishing: its fields may be touched concurrently
+						}
+						now, _ := st.Int("memory")
+						delta := now - mem
+						stack := st.VM.Stack()
+						topLen := -1
+						if len(stack) > 0 && stack[len(stack)-1] != nil {
+							if rv := reflect.ValueOf(stack[len(stack)-1]); rv.Kind() == reflect.Slice || rv.Kind() == reflect.Map {
+								topLen = rv.Len()
+							}
+						}
+						bad := ""
+						switch {
+						case delta < 0:
+							bad = "allocation-counter-decreases"
+						case op == vm.OpRange || op == vm.OpArray || op == vm.OpMap:
+							if delta != topLen {
+								bad = "allocation-not-counted-exactly"
+							}
+						case delta != 0 && delta != topLen:
+							bad = "counter-changes-without-allocation"
+						}
+						if bad != "" {
+							st.Finish()
+							r.Report(report.Violation{Sub: "step-invariant@" + m.String(), Kind: bad, Witness: fmt.Sprintf("opcode %d", op), Order: int64(i),
+								Detail: map[string]interface{}{"source": c.e.String(), "env": v.Describe(), "ip": ip, "memory_before": mem, "memory_after": now, "len_of_top": topLen}})
+							return
+						}
+						mem = now
+						ip = st.IP
+					}
+					st.Finish()
+				}
+			}
+		})
+	}
+	r.Set("step_invariant_runs", stepRuns)
+	r.Set("step_invariant_instructions", stepSteps)
+	if stepSkipped != "" {
+		r.Set("step_invariant_skipped", stepSkipped)
 	}
 	// Boundary family at the default budget.
 	vm.MemoryBudget = saved
